@@ -89,7 +89,9 @@ def build_line(lid, engine, level, variant, empty_none):
     y = 10 * int(lid[1:])
     line = TextLine(id=lid, baseline=np.array([[0, y], [50, y]]), polygon=np.array([[0, y - 5], [50, y - 5], [50, y + 2], [0, y + 2]]),
                     heights=[5, 2], characters=list(chars))
-    line.transcription_confidence = 0.111 * engine         # the engine's own earlier value (sentinel)
+    # the value the line carried before the merge (e.g. the conf attribute of an imported PAGE XML): a sentinel, low on even lines
+    # and HIGHER than any engine's mean confidence on odd lines - it must never act as a threshold nor survive a positive maximum
+    line.transcription_confidence = (0.111 if int(lid[1:]) % 2 == 0 else 0.961) + 0.001 * engine
     if level == NONE:
         line.transcription = None if empty_none else ""
         line.logits = sp.csc_matrix(np.log(np.full((2, nc), 1.0 / nc)) + 1.0)
